@@ -840,7 +840,14 @@ impl Mutator<'_, '_, '_> {
                         if p > 0 {
                             if let Some((_, f)) = self.r.field(n) {
                                 let t = f.ty.clone();
-                                let name = format!("w{}", self.r.fields.len());
+                                let mut k = self.r.fields.len();
+                                let name = loop {
+                                    let cand = format!("w{k}");
+                                    if self.r.field(&cand).is_none() {
+                                        break cand;
+                                    }
+                                    k += 1;
+                                };
                                 self.r.fields.push(FieldSpec { name: name.clone(), ty: MType::array(t), optional: true });
                                 ix.base = MBase::Field(name);
                                 ix.path.insert(0, MIdx::Each);
